@@ -69,3 +69,80 @@ Fixpoint consts_plain (p : xproto) : bool :=
 (* the run-level statement of C07's consequence for the full VM model *)
 Definition wf_run_noob_statement : Prop :=
   forall p, chunk_ok p -> consts_plain p = true -> forall fuel, fin_noob (run_proto fuel p).
+
+(* ---------- the frame-stack discipline ---------- *)
+(* no thread has a resumer: the state of a machine on which no coroutine was ever resumed *)
+Definition par_ok (s : vstate) : Prop := Forall (fun th => th_parent th = None) (vthreads s).
+
+(* the main loop entered by callR on the frame just pushed (b = its index from the bottom) ends with
+   exactly the caller's frames, each as it was; an error leaves them at the bottom of the stack *)
+Definition ml_disc (ml : option nat -> VM unit) : Prop :=
+  forall b s, par_ok s -> length (vstack s) = S b ->
+  match ml (Some b) s with
+  | VRet _ s' => par_ok s' /\ vstack s' = tl (vstack s)
+  | VErr _ s' => par_ok s' /\ exists k, vstack s' = k ++ tl (vstack s)
+  | _ => True
+  end.
+
+(* The machine with coroutine resumption cut off: coroutine.resume and the functions made by
+   coroutine.wrap stop the run like exhausted fuel does (everything else, incl. coroutine.create /
+   wrap / yield / status / running, pcall, metamethods, is the full model). By monotonicity a run
+   of the cut machine that ends otherwise is the run of the full machine. *)
+Definition is_resume (b : builtin) : bool :=
+  match b with BCoResume => true | BWrapped (S _) => true | _ => false end.
+
+Definition gfunction_nc (ml : option nat -> VM unit) (b : builtin) : VM Z :=
+  if is_resume b then (fun _ => VFuel) else gfunction ml b.
+
+Fixpoint run_loop_nc (ml : option nat -> VM unit) (k : nat) (baseframe : option nat) (s : vstate) {struct k} : vres unit :=
+  match k with
+  | O => VFuel
+  | S k' =>
+      match fetch s with
+      | VRet inst s1 =>
+          match exec_inst ml (gfunction_nc ml) inst baseframe s1 with
+          | VRet true s2 => VRet tt s2
+          | VRet false s2 => run_loop_nc ml k' baseframe s2
+          | VErr e s2 => VErr e s2
+          | VFuel => VFuel
+          | VUnsup c => VUnsup c
+          end
+      | VErr e s1 => VErr e s1
+      | VFuel => VFuel
+      | VUnsup c => VUnsup c
+      end
+  end.
+
+Definition run_gframe_nc (ml : option nat -> VM unit) (s : vstate) : vres unit :=
+  match callGFunction (gfunction_nc ml) false s with
+  | VRet _ s' => VRet tt s'
+  | VErr e s' => VErr e s'
+  | VFuel => VFuel
+  | VUnsup c => VUnsup c
+  end.
+
+Fixpoint mainLoop_nc (n : nat) (baseframe : option nat) (s : vstate) {struct n} : vres unit :=
+  match n with
+  | O => VFuel
+  | S n' =>
+      match vstack s with
+      | [] => VRet tt s
+      | f :: _ =>
+          if is_go (fr_fn f) then run_gframe_nc (mainLoop_nc n') s
+          else run_loop_nc (mainLoop_nc n') n' baseframe s
+      end
+  end.
+
+Definition run_proto_nc (fuel : nat) (p : xproto) : vfin :=
+  match PCall (mainLoop_nc fuel) 0 MultRet None (init_vstate p) with
+  | VRet None s =>
+      match reg_get_range 0 (Z.to_nat (rtop (vreg s))) s with
+      | VRet vs _ => VFinOk vs s
+      | VUnsup c => VFinUnsup c
+      | _ => VFinUnsup 101
+      end
+  | VRet (Some e) s => VFinErr e s
+  | VErr e s => VFinErr e s
+  | VFuel => VFinFuel
+  | VUnsup c => VFinUnsup c
+  end.
